@@ -10,15 +10,20 @@ open OZ.Drv OZ.Fungible OZ.Host
 def N : Nat := 5
 def MAX_TTL : Nat := 200000
 
+/-- size of the observed account universe of a sequence: `n=<k>` in the sequence label,
+default `N` (C01 labels carry no `n=`, so C01 is unaffected) -/
+def labelN (label : String) : Nat := (kvNat? (words label) "n").getD N
+
 structure M where
   cfg : Cfg
   s : State
+  n : Nat := N
 
 def initM (label : String) : M :=
   let ws := words label
   let mt := (kvNat? ws "min_temp").getD 1
   let st := (kvNat? ws "start").getD 100
-  { cfg := ⟨mt, MAX_TTL⟩, s := init st }
+  { cfg := ⟨mt, MAX_TTL⟩, s := init st, n := labelN label }
 
 def parseOp (ws : List String) : Option (List Nat × Op) :=
   match ws with
@@ -46,12 +51,14 @@ def showEvent : Event → String
   | .transfer f t a => s!"transfer:{f}:{t}:{a}"
   | .approve o s a lu => s!"approve:{o}:{s}:{a}:{lu}"
 
-def showState (s : State) : String :=
-  let bals := (List.range N).map (fun i => toString (s.bal i))
-  let al := (List.range N).flatMap (fun o => (List.range N).filterMap (fun sp =>
+def showStateN (n : Nat) (s : State) : String :=
+  let bals := (List.range n).map (fun i => toString (s.bal i))
+  let al := (List.range n).flatMap (fun o => (List.range n).filterMap (fun sp =>
     let a := allowance s o sp
     if a = 0 then none else some s!"{o}:{sp}:{a}"))
   s!"sup={s.supply} bal={",".intercalate bals} allow={if al.isEmpty then "-" else ";".intercalate al}"
+
+def showState (s : State) : String := showStateN N s
 
 /-- one op line through the model: new state and the observation line -/
 def stepLine (m : M) (line : String) : M × String :=
@@ -73,8 +80,8 @@ def stepLine (m : M) (line : String) : M × String :=
         | .advance _ => "-"
         | _ => showList toString ((op.required ++ mauth.toList).mergeSort (· ≤ ·))
       ({ m with s := s' },
-        s!"ok {showState s'} now={s'.now} ev={if evs.isEmpty then "-" else ";".intercalate (evs.map showEvent)} dem={dem}")
-    | .error _ => (m, s!"err {showState m.s} now={m.s.now} ev=- dem=-")
+        s!"ok {showStateN m.n s'} now={s'.now} ev={if evs.isEmpty then "-" else ";".intercalate (evs.map showEvent)} dem={dem}")
+    | .error _ => (m, s!"err {showStateN m.n m.s} now={m.s.now} ev=- dem=-")
 
 /-! ### parsing of observations (implementation side) for the monitors -/
 
